@@ -36,7 +36,8 @@ def gen_cases(tier, seed):
 def make_dist(rng):
     T = rng.choice([1, 2, 2, 3, 4])
     nk = rng.randint(1, 12)
-    keys = list({tuple(rng.randrange(0, 7) for _ in range(T)) for _ in range(nk)})
+    top = 7 if rng.random() < 0.93 else rng.choice([300, 70000])      # rarely: degrees beyond 255 / 65535
+    keys = list({tuple(rng.randrange(0, top) for _ in range(T)) for _ in range(nk)})
     wstyle = rng.choice(["spread", "equal", "dominant", "normalised"])
     if wstyle == "equal":
         w = [1.0] * len(keys)
@@ -215,7 +216,7 @@ def run_case(case):
             res.count("downstream_empirical")
             if abs(sum(emp.jdd.values()) - 1) > 1e-9:
                 res.violate("downstream-empirical-not-normalised"); break
-            if Nv <= 100:
+            if Nv <= 100 and sum(sum(e) for e in out) <= 60000:
                 calls = Counter()
 
                 def mk(i):
